@@ -537,6 +537,10 @@ def autoref_foreign(ctx, n):
         'f <= g': lambda: f <= g,
         'f < g': lambda: f < g,
         'f == 3': lambda: f == 3,
+        'f == None': lambda: f == None,   # noqa: E711
+        'f != None': lambda: f != None,   # noqa: E711
+        'f != 3': lambda: f != 3,
+        'f < 3': lambda: f < 3,
         'f <= 3': lambda: f <= 3,
         'image(f, g)': lambda: _a.image(f, g, {names[1 % n]: names[0]}, {names[0]}),
         'preimage(f, g)': lambda: _a.preimage(f, g, {names[0]: names[1 % n]}, {names[1 % n]}),
@@ -554,7 +558,7 @@ def autoref_foreign(ctx, n):
             outcome = type(e).__name__
         ctx.case(('autoref-foreign', n, what), True)
         ctx.count('autoref-foreign:' + ('refused' if outcome != 'returned' else 'returned'))
-        if outcome == 'returned' and what not in ('f == 3', 'f <= 3'):
+        if outcome == 'returned' and what not in ('f == 3', 'f <= 3', 'f == None', 'f != None', 'f != 3', 'f < 3'):
             ctx.violation('C17:accepted', f'dd.autoref accepted a Function of another manager: {what} returned {r!r}',
                           dict(case, call=what))
         del r
